@@ -35,11 +35,75 @@ func (DateTime) String() string {
 }
 
 func (DateTime) Validate(value bytes.Bytes) {
-	str := value.Unquote().String()
-	_, err := time.Parse(time.RFC3339, str)
-	if err != nil {
+	if !isRFC3339DateTime(value.Unquote().String()) {
 		panic(errors.ErrInvalidDateTime)
 	}
+}
+
+// isRFC3339DateTime checks s against the date-time of RFC 3339, section 5.6:
+//
+//	date-time = full-date "T" full-time               ; "T" and "Z" in either case
+//	full-date = 4DIGIT "-" 2DIGIT "-" 2DIGIT          ; a day of the calendar
+//	full-time = 2DIGIT ":" 2DIGIT ":" 2DIGIT ["." 1*DIGIT] ("Z" / ("+" / "-") 2DIGIT ":" 2DIGIT)
+//
+// time.Parse(time.RFC3339, s) does not: it accepts a comma for the point and an
+// offset of 24 hours, it refuses "t", "z" and the leap second.
+func isRFC3339DateTime(s string) bool {
+	// The shortest form is 2006-01-02T15:04:05Z.
+	if len(s) < 20 || (s[10] != 'T' && s[10] != 't') || s[13] != ':' || s[16] != ':' {
+		return false
+	}
+	if _, err := time.Parse("2006-01-02", s[:10]); err != nil {
+		return false
+	}
+	hour, okHour := twoDigits(s[11:13], 23)
+	minute, okMinute := twoDigits(s[14:16], 59)
+	second, okSecond := twoDigits(s[17:19], 60)
+	if !okHour || !okMinute || !okSecond {
+		return false
+	}
+
+	s = s[19:]
+	if s[0] == '.' {
+		i := 1
+		for i < len(s) && bytes.IsDigit(s[i]) {
+			i++
+		}
+		if i == 1 {
+			return false
+		}
+		s = s[i:]
+	}
+
+	offset := 0
+	switch {
+	case s == "Z" || s == "z":
+	case len(s) == 6 && (s[0] == '+' || s[0] == '-') && s[3] == ':':
+		offsetHour, okHour := twoDigits(s[1:3], 23)
+		offsetMinute, okMinute := twoDigits(s[4:6], 59)
+		if !okHour || !okMinute {
+			return false
+		}
+		offset = offsetHour*60 + offsetMinute
+		if s[0] == '-' {
+			offset = -offset
+		}
+	default:
+		return false
+	}
+
+	// A leap second is the last second of a day of UTC: 23:59:60Z.
+	const day = 24 * 60
+	return second != 60 || ((hour*60+minute-offset)%day+day)%day == day-1
+}
+
+// twoDigits returns the number written with the two digits of s, if it is one up to max.
+func twoDigits(s string, max int) (int, bool) {
+	if !bytes.IsDigit(s[0]) || !bytes.IsDigit(s[1]) {
+		return 0, false
+	}
+	n := int(s[0]-'0')*10 + int(s[1]-'0')
+	return n, n <= max
 }
 
 func (DateTime) ASTNode() jschema.RuleASTNode {
